@@ -279,8 +279,10 @@ def specs():
 
 def dict_cases(rng):
     """yields (name, text, vars(python values), model thunk, unordered)"""
-    d = {rng.choice('abcd'): rng.choice([1, 2, [1, 2], {'x': 1}, None]) for _ in range(rng.randrange(0, 4))}
-    e = {rng.choice('abce'): rng.choice([3, [2, 3], {'x': 2, 'y': 3}]) for _ in range(rng.randrange(0, 3))}
+    d = {rng.choice('abcd'): rng.choice([1, 2, [1, 2], {'x': 1}, None, {'x': None, 'z': [1]}, 0, '', False])
+         for _ in range(rng.randrange(0, 4))}
+    e = {rng.choice('abce'): rng.choice([3, [2, 3], {'x': 2, 'y': 3}, None, {'x': None}, 0, '', [], False])
+         for _ in range(rng.randrange(0, 4))}
     k = rng.choice('abcdz')
     v = {'d': d, 'e': e}
     yield 'dict.len', '$d.len()', v, lambda: len(d), False
